@@ -345,3 +345,50 @@ func ZZ_C06_Doorkeeper() {
 	}
 	vfAssert("counter-bounded-by-capacity-plus-one", vfImplies(c0 <= capD+1, shard.counter <= capD+1))
 }
+
+// ZZ_C06_PoolRecycledDeadline: entry pool on. The object of an entry that had a TTL and has expired (or was
+// evicted) is recycled for a new key stored without TTL: the new value is governed by its own call only, it is
+// readable at once and never expires.
+func ZZ_C06_PoolRecycledDeadline() {
+	var notes []zzNote
+	s := zzThreadedStore(int64(vfConfig("CAP", 10)), &notes) // POOL=1 from the configuration
+	origin := vfClockNow()
+	ttl := vfI64("ttl")
+	vfAssume(ttl >= 1)
+	vfAssume(ttl <= 1<<29)
+	s.Set(1, 101, 1, time.Duration(ttl))
+	s.Wait()
+	if vfConfig("CAP", 10) == 1 {
+		s.Set(2, 201, 1, time.Duration(ttl)) // capacity 1: one of the two is evicted and its object pooled
+		s.Wait()
+	} else {
+		vfClockSet(origin + 1<<31) // the deadline passes and the wheel collects the entry: its object is pooled
+		vfFireTickers()
+		vfQuiesce()
+		s.Wait()
+		_, still := s.shards[zzIndex(s, 1)].hashmap[1]
+		vfAssert("expired-entry-collected", !still)
+	}
+	vfReach("recycling")
+	ok := s.Set(3, 301, 1, 0)
+	v, hit := s.Get(3)
+	vfAssert("set-true-immediately-readable", ok && hit && v == 301)
+	s.Wait()
+	d := vfI64("advance")
+	vfAssume(d >= 0)
+	vfAssume(d <= 1<<41)
+	vfClockSet(origin + 1<<31 + d)
+	s.timerwheel.clock.RefreshNowCache()
+	vfFireTickers()
+	vfQuiesce()
+	s.Wait()
+	if vfConfig("CAP", 10) != 1 {
+		v, hit = s.Get(3)
+		vfAssert("ttl-less-value-never-expires", hit && v == 301)
+	} else if e, ok := s.shards[zzIndex(s, 3)].hashmap[3]; ok {
+		vfAssert("ttl-less-entry-has-no-deadline", e.expire.Load() == 0)
+	}
+	for _, n := range notes {
+		vfAssert("ttl-less-value-not-reported-expired", !(n.key == 3 && n.reason == EXPIRED))
+	}
+}
